@@ -576,12 +576,41 @@ func newWorld(r *rng.R, g *chainkit.Genesis, p *chainkit.Node, tokens []common.A
 	return w
 }
 
+// droppedFromPool lists transactions the proposer's pool admitted earlier, that were never committed and that
+// the pool no longer holds (dropped by a recheck) while its dedup cache still knows them: what a Byzantine
+// proposer can put into a block so that validators with and without the cached transaction judge it.
+func (w *world) droppedFromPool() []types.Tx {
+	s := w.p.Mempool.VerifSnapshot()
+	in := map[common.Hash]bool{}
+	for _, l := range [][]types.Tx{s.Good, s.Utxo, s.Spec} {
+		for _, tx := range l {
+			in[tx.Hash()] = true
+		}
+	}
+	for _, l := range s.Future {
+		for _, tx := range l {
+			in[tx.Hash()] = true
+		}
+	}
+	var out []types.Tx
+	for _, tx := range w.admitted {
+		if h := tx.Hash(); !in[h] && !w.committed[h] {
+			w.count("dropped_from_pool_seen", 1)
+			if w.p.Mempool.VerifInCache(h) {
+				out = append(out, tx)
+			}
+		}
+	}
+	return out
+}
+
 // submit hands one generated transaction to the proposer's real mempool.
 func (w *world) submit(gt *genTx) {
 	w.kindOf[gt.tx.Hash()] = gt.kind
 	err := w.p.Mempool.AddTx("", gt.tx)
 	if err == nil {
 		w.count("pool_admitted", 1)
+		w.admitted = append(w.admitted, gt.tx)
 		if gt.plan != nil {
 			w.cons = append(w.cons, gt.plan)
 		}
@@ -666,6 +695,12 @@ func (w *world) fill(height uint64, want int) {
 // learn updates the generator's knowledge from a committed block and its receipts.
 func (w *world) learn(b *types.Block, receipts types.Receipts) {
 	w.ledger.ScanBlock(b)
+	if w.committed == nil {
+		w.committed = map[common.Hash]bool{}
+	}
+	for _, tx := range b.Data.Txs {
+		w.committed[tx.Hash()] = true
+	}
 	byAddr := map[common.Address]*contractInfo{}
 	for _, c := range w.cons {
 		byAddr[c.Addr] = c
